@@ -177,7 +177,9 @@ def seqRun {σ D : Type} (ci : Bool) (P : Params σ D) : σ → List (Str × Str
     ⟨true, rest.state, b.line :: rest.lines,
       b.logs.map (seqLine ci) ++ [seqLine ci (applyPath, applyRec b r.2)] ++ rest.written⟩
 
-/-- `_agents_parallel_enabled` (for Boolean flags and an integer `max_workers`). -/
+/-- `_agents_parallel_enabled` (for Boolean flags and an integer `max_workers`).  `enabled` is the conjunction
+`perf.enabled ∧ perf.parallel.enabled` (the master switch is part of the gate since the repair of finding
+`C02:inert:perf:perf.parallel`; the harness passes the conjunction, `eff_enabled` in `harness/props/c10.py`). -/
 def parallelOn (enabled agents : Bool) (mw : Int) : Bool := enabled && agents && decide (mw > 1)
 
 /-- `_run_agents_parallel_batch`. -/
